@@ -112,6 +112,18 @@ def run(W, chk):
                    "no penalty message; the only Send pays exactly the stored lp_asset to the stored receiver; the position is removed",
                    "without the emergency conditions (%s): penalty msgs %d, sends %d %s, remove-key ok %s, guard found %s" %
                    (nm, len(pc), len(sends), detail, bool(keyok), bool(pol.hits)), where((pc or sends or [None])[0]) if (pc or sends) else A.entry)
+    # the position is looked up under the very key it is removed under (a lookup that also tries another spelling of the identifier
+    # would pay out a position that the removal then misses)
+    A = W.run(fm, "execute", wd)
+    rem = [e for e in pos_writes(A) if e.extra.get("sop") == "remove"]
+    rd = [e for e in A.reads() if e.extra.get("item") == "POSITIONS" and e.extra.get("sop") in ("load", "may_load")]
+    if rem and rd:
+        rk = opmap(rem[0].extra.get("key", EMPTY))
+        own = {"Store(POSITIONS).identifier": frozenset()}
+        bad = [e for e in rd if opmap(e.extra.get("key", EMPTY)) not in (rk, own)]
+        chk.expect(not bad, "KEY-withdraw-same", "Withdraw", "every lookup of the position uses the key it is removed under",
+                   "the position is looked up under %s but removed under %s" % ([{k: sorted(v) for k, v in opmap(e.extra.get("key", EMPTY)).items()} for e in bad][:2],
+                                                                                 {k: sorted(v) for k, v in rk.items()}), where(bad[0]) if bad else "")
     # remove on every success path
     A = W.run(fm, "execute", wd)
     chk.expect(len([e for e in pos_writes(A) if e.extra.get("sop") == "remove"]) == 1, "PAIR-withdraw-remove", "Withdraw",
